@@ -46,6 +46,7 @@ pub fn compute_alive_vars(project: &Project) -> HashMap<Tid, BTreeSet<Variable>>
                                 target: expression, ..
                             }
                             | Jmp::BranchInd(expression)
+                            | Jmp::Return(expression)
                             | Jmp::CBranch {
                                 condition: expression,
                                 ..
